@@ -78,6 +78,9 @@ func (e *Enc) script() string {
 	if len(fns) > 0 {
 		fmt.Fprintf(&b, "(assert (distinct 0 %s))\n", strings.Join(fns, " "))
 	}
+	for _, k := range sortedKeys(e.boxDecls) {
+		fmt.Fprintf(&b, "(declare-fun %s (%s) Int)\n", k, e.boxDecls[k])
+	}
 	// ToLower is evaluated by gvc itself on every string literal of the script
 	if e.usedUF["lower"] {
 		for i := 0; i < len(e.reg.strList); i++ {
